@@ -15,8 +15,8 @@ import traceback
 
 VERIF = os.path.dirname(os.path.dirname(os.path.abspath(__file__)))
 REPO = os.environ.get('PFST_REPO', '/repo')
-REPLAYS = os.path.join(VERIF, 'replays')
-EVIDENCE = os.path.join(VERIF, 'evidence')
+REPLAYS = os.environ.get('PFST_VERIF_REPLAYS') or os.path.join(VERIF, 'replays')    # redirected by the self-test only
+EVIDENCE = os.environ.get('PFST_VERIF_EVIDENCE') or os.path.join(VERIF, 'evidence')
 KNOWN = os.path.join(VERIF, 'known_findings.json')
 
 RUN_TIMEOUT_S = 60
